@@ -873,9 +873,10 @@ Definition ex_S : list snode :=
   [ SN (sb "m1") (sb "c") (KCont false)
       [ SN (sb "m1") (sb "l") (KList false true)
           [ SN (sb "m1") (sb "k1") (KLeaf true) []; SN (sb "m1") (sb "k.2") (KLeaf true) [];
-            SN (sb "m1") (sb "v") (KLeaf false) []; SN (sb "m2") (sb "k1") (KLeaf false) [];
+            SN (sb "m1") (sb "v") (KLeaf false) [];
             SN (sb "m1") (sb "inner") (KList false true)
-              [ SN (sb "m1") (sb "id") (KLeaf true) []; SN (sb "m1") (sb "ll") (KLeafList true) [] ] ];
+              [ SN (sb "m1") (sb "id") (KLeaf true) []; SN (sb "m1") (sb "ll") (KLeafList true) [] ];
+            SN (sb "m2") (sb "k1") (KLeaf false) [] ];
         SN (sb "m2") (sb "c") (KCont true) [] ];
     SN (sb "m1") (sb "st") (KCont false)
       [ SN (sb "m1") (sb "kl") (KList true false)
@@ -888,12 +889,13 @@ Definition ex_t : list dnode :=
   [ DN (sb "m1") (sb "c") (KCont false) []
       [ DN (sb "m1") (sb "l") (KList false true) []
           [ DN (sb "m1") (sb "k1") (KLeaf true) (sb "a b") []; DN (sb "m1") (sb "k.2") (KLeaf true) (sb "[x]'y/") [];
-            DN (sb "m1") (sb "v") (KLeaf false) (sb "it's ""1""") []; DN (sb "m2") (sb "k1") (KLeaf false) (sb "z") [];
+            DN (sb "m1") (sb "v") (KLeaf false) (sb "it's ""1""") [];
             DN (sb "m1") (sb "inner") (KList false true) []
               [ DN (sb "m1") (sb "id") (KLeaf true) (sb "i""1") [];
-                DN (sb "m1") (sb "ll") (KLeafList true) (sb "p/q\") []; DN (sb "m1") (sb "ll") (KLeafList true) [] [] ];
+                DN (sb "m1") (sb "ll") (KLeafList true) [] []; DN (sb "m1") (sb "ll") (KLeafList true) (sb "p/q\") [] ];
             DN (sb "m1") (sb "inner") (KList false true) []
-              [ DN (sb "m1") (sb "id") (KLeaf true) [195; 169] [] ] ];
+              [ DN (sb "m1") (sb "id") (KLeaf true) [195; 169] [] ];
+            DN (sb "m2") (sb "k1") (KLeaf false) (sb "z") [] ];
         DN (sb "m1") (sb "l") (KList false true) []
           [ DN (sb "m1") (sb "k1") (KLeaf true) (sb "a b") []; DN (sb "m1") (sb "k.2") (KLeaf true) (sb "]") [] ];
         DN (sb "m2") (sb "c") (KCont true) [] [] ];
@@ -907,6 +909,13 @@ Definition ex_t : list dnode :=
     DN (sb "m1") (sb "tk") (KList true false) [] [ DN (sb "m1") (sb "and") KAny [] [] ];
     DN (sb "m1") (sb "tk") (KList true false) [] [];
     DN (sb "m2") (sb "c") (KCont false) [] [ DN (sb "m2") (sb "a") (KLeaf false) (sb "v") [] ] ].
+
+(* the same two values with the strings computed away (for the extraction: the correspondence component feeds this very
+   tree, as libyang holds it, to the model and to the implementation; corpus/pathmodel.txt) *)
+Definition ex_S_c : list snode := Eval vm_compute in ex_S.
+Definition ex_t_c : list dnode := Eval vm_compute in ex_t.
+Lemma ex_c_eq : ex_S_c = ex_S /\ ex_t_c = ex_t.
+Proof. split; reflexivity. Qed.
 
 (* positions of all nodes *)
 Fixpoint all_pos_node (x : dnode) (p : list nat) {struct x} : list (list nat) :=
@@ -947,8 +956,8 @@ Definition own_ok (S : list snode) (t : list dnode) (p : list nat) : bool :=
 Lemma ex_hyps :
   swf ex_S = true /\ dwf ex_S ex_t = true /\ quotes_ok ex_t = true /\
   List.length (all_pos ex_t O) = 31%nat /\ forallb (own_ok ex_S ex_t) (all_pos ex_t O) = true /\
-  path_of ex_t [0; 0; 4; 1]%nat = Some (sb "/m1:c/l[k1='a b'][k.2=""[x]'y/""]/inner[id='i""1']/ll[.='p/q\']") /\
-  path_of ex_t [0; 0; 3]%nat = Some (sb "/m1:c/l[k1='a b'][k.2=""[x]'y/""]/m2:k1") /\
+  path_of ex_t [0; 0; 3; 2]%nat = Some (sb "/m1:c/l[k1='a b'][k.2=""[x]'y/""]/inner[id='i""1']/ll[.='p/q\']") /\
+  path_of ex_t [0; 0; 5]%nat = Some (sb "/m1:c/l[k1='a b'][k.2=""[x]'y/""]/m2:k1") /\
   path_of ex_t [0; 2]%nat = Some (sb "/m1:c/m2:c") /\
   path_of ex_t [1; 2; 0]%nat = Some (sb "/m1:st/kl[3]/x") /\
   path_of ex_t [1; 4]%nat = Some (sb "/m1:st/sl[2]") /\
